@@ -821,7 +821,18 @@ impl ErasedNode for Node {
             // | Kind::If_then_else i -> node.height > i.test_change.height
             // | Join_main j -> node.height > j.lhs_change.height
         };
-        if can_recompute_now || parent.height() <= state.recompute_heap.min_height() {
+        /* [can_recompute_now] argues from the heights that everything [parent] has to wait for
+        (its scope's change node, or its own change node) has already been processed. That
+        only holds if [child] was taken from the recompute heap in height order. When we got
+        here through a chain of direct recomputes, nodes lower than [child] can still be
+        pending, among them the change node that may be about to invalidate [parent]. So
+        also require that nothing at or below that change node's height is still queued. */
+        let min_height = state.recompute_heap.min_height();
+        let change_node_settled = match parent_kind {
+            Kind::BindMain { lhs_change, .. } => lhs_change.height() < min_height,
+            _ => parent.created_in.height() < min_height,
+        };
+        if (can_recompute_now && change_node_settled) || parent.height() <= min_height {
             /* If [parent.height] is [<=] the height of all nodes in the recompute heap
             (possibly because the recompute heap is empty), then we can recompute
             [parent] immediately and save adding it to and then removing it from the
